@@ -87,6 +87,8 @@ type expectRec struct {
 	TxRuns     []txRun         `json:"txruns"`
 	Variants   []variant       `json:"variants"`
 	Frames     []frameVar      `json:"frames"`
+	V2Head     []Tok           `json:"v2head"`
+	V2         []v2Frame       `json:"v2"`
 }
 
 type rootRec struct {
@@ -95,6 +97,7 @@ type rootRec struct {
 	MaxMessagePayload uint64   `json:"maxmessagepayload"`
 	Header            []Tok    `json:"header"`
 	BlockHeader       []Tok    `json:"blockheader"`
+	V2Long            []Tok    `json:"v2long"`
 }
 
 // viol is one divergence of the real code from the specification.
@@ -571,6 +574,9 @@ func (w *worker) checkMsg(c *caseRec, e *expectRec, g *gen, b *builder, p []byte
 	for k := range e.Frames {
 		w.frameFault(c, &e.Frames[k], p)
 	}
+
+	// ---- BIP324 framing
+	w.checkV2(c, e, g, b, p)
 }
 
 // afterAccept: the decoded value, the returned payload and byte count, and the re-encoding.
@@ -639,6 +645,11 @@ func (w *worker) msgVariants(c *caseRec, e *expectRec, g *gen, b *builder, p []b
 	})
 	run := sha256.New()
 	fed := 0
+	v2head, herr := headBytes(e.V2Head, []byte(c.Type))
+	if herr != nil {
+		w.cur.Err = "v2 head: " + herr.Error()
+		return
+	}
 	for _, k := range order {
 		v := &e.Variants[k]
 		in, err := w.applyVariant(g, p, v)
@@ -668,6 +679,11 @@ func (w *worker) msgVariants(c *caseRec, e *expectRec, g *gen, b *builder, p []b
 		w.distinct(c.Type, "|", c.Pver, "|", c.Enc, "|", c.Shape, "|", v.Cls, "|", v.F, "|", viDesc(v.Ins), "|", v.Cut, "|", v.Res)
 		if w.compareDecision(where, v.Cls, v.Res, o.class, o.err, in, ex) {
 			w.afterAccept(where, v.Cls, g, b, v.Val, o, hdr, in, v.Canon, v.Chk, v.Lenient, v.Reenc, ex)
+		}
+		// the same payload behind the v2 head: same verdict (the claims within a limit whose
+		// elements are missing are the allocation probes: the decoders are the same, once is enough)
+		if !(v.Cls == "hostile-cut" && v.Res == "short") {
+			w.readV2Variant(c, v2head, v, in, b)
 		}
 	}
 }
